@@ -99,6 +99,26 @@ def apply_real(sd, op, nm):
             sknown = nd["attractor_sets"] is not None
             os_ = "-" if nd["attractor_seeds"] is None else (str(len(nd["attractor_seeds"])) + ("s" if sknown else ""))
             tape = (oc, os_)
+        elif k == "block":
+            r = str(sd.expand_block(find_motif_avoidant_attractors=op[1], size_limit=op[2], optimize_source_nodes=op[3], exact_attractor_detection=op[4])).lower()
+        elif k == "scc":
+            r = str(sd.expand_scc(find_motif_avoidant_attractors=op[1])).lower()
+        elif k == "aseeds":
+            r = str(sd.expand_attractor_seeds(size_limit=op[1])).lower()
+        elif k == "build":
+            sd.build(); r = "unit"
+        elif k == "seeds_all":
+            for i in list(sd.expanded_ids()):
+                sd.node_attractor_seeds(i, compute=True)
+            r = "unit"
+        elif k == "sets_all":
+            for i in list(sd.expanded_ids()):
+                sd.node_attractor_sets(i, compute=True)
+            r = "unit"
+        elif k == "seeds_every":
+            for i in list(sd.node_ids()):
+                sd.node_attractor_seeds(i, compute=True, symbolic_fallback=bool(op[1]) if len(op) > 1 else False)
+            r = "unit"
         elif k == "reclaim":
             sd.reclaim_node_data(); r = "unit"
         elif k == "pickle":
